@@ -484,7 +484,8 @@ def c16_dialog(inp):
         o.plot_svPSD = lambda *a, **k: None
         return o
     ev = lambda b, x, y: types.SimpleNamespace(button=b, xdata=x, ydata=y, key="shift")     # noqa: E731
-    picks = [(5.02, 3.2), (2.0, 1.1), (1.2, 3.9), (7.0, 2.6), (2.0, 2.2), (5.0, 4.1)]
+    picks = [(5.02, 3.2), (2.0, 1.1), (1.2, 3.9), (7.0, 2.6), (2.0, 2.2), (5.0, 4.1),
+             (8.1, 2.1)]      # ... and a pole that sits BELOW a discarded (NaN) entry of its order column
     acts = [("pick", p) for p in picks] + [("desel_one", None), ("desel_near", 2.3), ("desel_near", 6.0), ("noshift_pick", picks[0])]
 
     def model_pick(x, y):
@@ -948,14 +949,16 @@ def c20_plots(inp):
             want_st = Counter((round(float(Fn[r, c_]), 9), round(float(Xi[r, c_]), 9)) for r in range(n0) for c_ in range(n1) if Lab[r, c_] == 1 and np.isfinite(Fn[r, c_]))
             want_un = Counter((round(float(Fn[r, c_]), 9), round(float(Xi[r, c_]), 9)) for r in range(n0) for c_ in range(n1) if Lab[r, c_] == 0 and np.isfinite(Fn[r, c_]))
             try:
-                fig, ax = plot.cluster_plot(Fn.copy(), Xi.copy(), Lab.copy(), hide_poles=hide)
+                # `ordmin` is documented as the first order of the stability check - it selects nothing: every pole labelled stable is drawn,
+                # in whatever column the caller's tables hold it (pLSCF's tables start at order 1, so column ordmin - 1 may hold stable poles)
+                fig, ax = plot.cluster_plot(Fn.copy(), Xi.copy(), Lab.copy(), hide_poles=hide, **({"ordmin": int(trial % 5)} if trial % 3 else {}))
                 st, un = stable_unstable(ax)
                 if trial % 2 == 0:
                     plt.close(fig)
             except Exception as e:      # noqa: BLE001
                 return {"reproduced": True, "detail": f"cluster_plot raised {type(e).__name__}: {e}"}
             if st != want_st or (not hide and un != want_un):
-                return {"reproduced": True, "detail": f"cluster_plot(hide_poles={hide}): markers differ from (Fn, Xi) of the poles"}
+                return {"reproduced": True, "detail": f"cluster_plot(hide_poles={hide}, ordmin={int(trial % 5) if trial % 3 else 'default'}): markers differ from (Fn, Xi) of the poles"}
         nc, nf = int(rng.randint(1, 5)), int(rng.randint(3, 30))
         Sv = np.zeros((nc + 1, nc, nf))
         for k in range(nc):
@@ -2861,7 +2864,32 @@ def flow_plscf(inp):
     return {"reproduced": False, "detail": "run() of pLSCF and pLSCF_MS hands the estimator's spectrum, dt, ordmax and the sign belonging to the estimator to plscf.pLSCF and the fitted model to pLSCF_poles"}
 
 
-DRIVERS = {"flow_spectral": flow_spectral, "flow_ssi": flow_ssi, "flow_plscf": flow_plscf, "flow_mpe": flow_mpe, "c16_handover": c16_handover, "c02_results": c02_results, "c08_meta": c08_meta, "c17_factor": c17_factor, "c17_fd": c17_fd, "c03_exact": c03_exact, "c05_exact": c05_exact, "c01_exact": c01_exact, "c01_modal": c01_modal, "c19_geo": c19_geo, "c15_gating": c15_gating, "c15_poser": c15_poser, "c11_plscf_findmin": c11_plscf_findmin, "c11_mpe": c11_mpe, "c06_fdd": c06_fdd, "c20_plots": c20_plots, "c18_indicators": c18_indicators, "c13_sdest": c13_sdest, "c04_preger": c04_preger, "c03_split": c03_split, "c14_sequences": c14_sequences, "c16_dialog": c16_dialog, "c02_merge": c02_merge, "c09_run": c09_run, "c10_run": c10_run, "c10_fn": c10_fn}
+def c12_complex(inp):
+    """build_hank on COMPLEX records (covariance methods): bilinearity over the complex numbers reduces them to the real case, which the
+    deductive contracts decide: H(Y1 + iY2, R1 + iR2) = H(Y1,R1) - H(Y2,R2) + i (H(Y1,R2) + H(Y2,R1)) for real Y1, Y2, R1, R2"""
+    from pyoma2.functions import ssi
+    rng = np.random.RandomState(int(inp.get("seed", 12)))
+    n = 0
+    for trial in range(int(inp.get("trials", 24))):
+        l = int(rng.randint(1, 5)); br = int(rng.randint(1, 6)); N = int(rng.randint(4 * br + 8, 90))
+        refs = sorted(rng.permutation(l)[:int(rng.randint(1, l + 1))].tolist(), key=lambda _: rng.rand())
+        Y1, Y2 = rng.randn(l, N), rng.randn(l, N)
+        for method in ("cov_mm", "cov_R"):
+            H = lambda A, B: np.asarray(ssi.build_hank(A, B, br, method=method)[0])      # noqa: E731
+            R1, R2 = Y1[refs, :], Y2[refs, :]
+            try:
+                got = H(Y1 + 1j * Y2, R1 + 1j * R2)
+                want = H(Y1, R1) - H(Y2, R2) + 1j * (H(Y1, R2) + H(Y2, R1))
+            except Exception as e:      # noqa: BLE001
+                return {"reproduced": True, "detail": f"build_hank({method}) raised {type(e).__name__}: {e} on complex records (l={l}, refs={refs}, br={br}, N={N})"}
+            n += 1
+            if got.shape != want.shape or not np.allclose(got, want, rtol=1e-9, atol=1e-12):
+                return {"reproduced": True, "detail": f"build_hank({method}) is not bilinear on complex records: H(Y1 + iY2, R1 + iR2) differs from its expansion over the real "
+                                                      f"parts by {np.max(np.abs(np.asarray(got, dtype=complex) - want)):.3e} (l={l}, refs={refs}, br={br}, N={N}; imaginary part kept: {bool(np.iscomplexobj(got))})"}
+    return {"reproduced": False, "detail": f"build_hank(cov_mm / cov_R) on complex records equals its bilinear expansion over real records in {n} cases"}
+
+
+DRIVERS = {"c12_complex": c12_complex, "flow_spectral": flow_spectral, "flow_ssi": flow_ssi, "flow_plscf": flow_plscf, "flow_mpe": flow_mpe, "c16_handover": c16_handover, "c02_results": c02_results, "c08_meta": c08_meta, "c17_factor": c17_factor, "c17_fd": c17_fd, "c03_exact": c03_exact, "c05_exact": c05_exact, "c01_exact": c01_exact, "c01_modal": c01_modal, "c19_geo": c19_geo, "c15_gating": c15_gating, "c15_poser": c15_poser, "c11_plscf_findmin": c11_plscf_findmin, "c11_mpe": c11_mpe, "c06_fdd": c06_fdd, "c20_plots": c20_plots, "c18_indicators": c18_indicators, "c13_sdest": c13_sdest, "c04_preger": c04_preger, "c03_split": c03_split, "c14_sequences": c14_sequences, "c16_dialog": c16_dialog, "c02_merge": c02_merge, "c09_run": c09_run, "c10_run": c10_run, "c10_fn": c10_fn}
 
 
 def main():
